@@ -610,7 +610,7 @@ func c11v4(h *H) {
 }
 
 func TestC11(t *testing.T) {
-	h := start(t, "C11", "every scoring method evaluated on the complete class spaces (v2.0: all 139,968,000 assignments; v3.0 and v3.1: 16,588,800 effective classes each; v4.0: 15,116,544 effective classes) and on rapid lifts into the raw spaces (corner profiles, Modified metrics, supplemental metrics); predicate: finite, bit-exact float64 nearest to k/10, 0 <= k <= 100 (v2.0 EnvironmentalScore: k <= 100 only), Rating accepts it; non-trivial = score > 0; enumerated classes distinct by construction, lifts by assignment")
+	h := start(t, "C11", "every scoring method evaluated on the complete class spaces (v2.0: all 139,968,000 assignments; v3.0 and v3.1: 16,588,800 effective classes each; v4.0: 15,116,544 effective classes) on rapid lifts into the raw spaces (corner profiles, Modified metrics, supplemental metrics), and after every Set step of operation histories (objects on which a metric has been set repeatedly); predicate: finite, bit-exact float64 nearest to k/10, 0 <= k <= 100 (v2.0 EnvironmentalScore: k <= 100 only), Rating accepts it; non-trivial = score > 0; enumerated classes distinct by construction, lifts by assignment")
 	if h.replaying() && h.replay.Kind == "score-shape" {
 		doReplay(h, "score-shape", checkScoreShape)
 		return
